@@ -544,13 +544,15 @@ def delLoop (nname : Cps) : Nat → Nat → List VItem → List VItem
     | some x => if isVarNamed nname x then delLoop nname fuel (i + 1) (seq.eraseIdx i)
                 else delLoop nname fuel (i + 1) seq
 
-/-- `removeVariable` (`:232-261`) — no `_checkReadonly()` in the code -/
+/-- `removeVariable` (`:232-262`) -/
 def vRemove (s : Vars) (name : Cps) : VRes Cps :=
-  let nn := normalize name
-  match dictGet s.vars nn with
-  | none => ⟨s, .ok []⟩
-  | some r =>
-    ⟨{ s with seq := delLoop nn s.seq.length 0 s.seq, vars := dictDel s.vars nn }, .ok r.css⟩
+  if s.readonly then ⟨s, .error .noModification⟩
+  else
+    match dictGet s.vars (normalize name) with
+    | none => ⟨s, .ok []⟩
+    | some r =>
+      ⟨{ s with seq := delLoop (normalize name) s.seq.length 0 s.seq, vars := dictDel s.vars (normalize name) },
+       .ok r.css⟩
 
 /-- `for i, x in enumerate(self.seq): if …: self.seq.replace(i, …); break` (`:303-308`) -/
 def replaceFirst (nname : Cps) (new : VItem) : List VItem → List VItem
